@@ -253,6 +253,16 @@ class NakPdu(AbstractFileDirectiveBase):
                 f"invalid PDU directive type for NAK PDU: "
                 f"{nak_pdu.pdu_file_directive.directive_type}"
             )
+        # Only the octets of this PDU without the CRC16 trailer hold scopes and segment requests.
+        end_of_params = nak_pdu.pdu_file_directive.packet_len
+        if len(data) > end_of_params:
+            raise ValueError(
+                f"raw data with length {len(data)} is longer than the NAK PDU length "
+                f"{end_of_params}"
+            )
+        if nak_pdu.pdu_file_directive.pdu_conf.crc_flag == CrcFlag.WITH_CRC:
+            end_of_params -= 2
+        data = data[:end_of_params]
         current_idx = nak_pdu.pdu_file_directive.header_len
         if not nak_pdu.pdu_file_directive.pdu_header.large_file_flag_set:
             struct_arg_tuple = ("!I", 4)
